@@ -159,9 +159,10 @@ INFO: dict[str, dict[str, Any]] = {
         "rule": ("one evaluation = 1-3 actors x 4-13 queue operations (push/push-delayed/push-in-transaction/poll/ack/reschedule/extend/"
                  "advance-clock/failing handler via process_one/DLQ sweep/move_to_dlq/replay_dlq) interleaved at SQL statement level, "
                  "lock_duration in {2,5,60}s, queue max_attempts in {3,10}, 30% with a crash at a seeded commit, 15% with an injected I/O "
-                 "error at a seeded commit, followed by a fault-free drain; oracles: exclusivity, conservation, fidelity, at-least-once. "
+                 "error at a seeded commit, 12% a dead-letter race (one message at its attempt limit; its holder's ack / move / reschedule and two "
+                 "sweeps resume at the same simulated instant), followed by a fault-free drain; oracles: exclusivity, conservation, fidelity, at-least-once. "
                  "non-trivial = at least one message was pushed and delivered during the operation phase"),
-        "budget": {"quick": {"runs": 400, "seconds": 120, "chunk": 20}, "thorough": {"runs": None, "seconds": 900, "chunk": 20}},
+        "budget": {"quick": {"runs": 1200, "seconds": 120, "chunk": 40}, "thorough": {"runs": None, "seconds": 900, "chunk": 20}},
         "assumptions": COMMON_ASSUMPTIONS + ["the lock comparison in SQL truncates to whole seconds; the exclusivity oracle uses the same granularity"],
         "expected_probes": ["lock_wait"],
     },
